@@ -141,6 +141,40 @@ def layered(nx, ny, nzb, nzt, columns, lengths=(1.0, 1.0, 1.0), zi=0.4, rng=None
     return verts, {k: v for k, v in cells.items() if v}
 
 
+def with_hex_island(verts, cells, n=(2, 1, 1), origin=(2.0, 0.0, 0.0), size=0.5, first_id=11):
+    """add a separate block of hexahedra (its own closed boundary of quadrilaterals) next to a mesh: a grid that has
+    hexahedra and boundary quadrilaterals but neither pyramids nor prisms, so refine's cavity operators run"""
+    verts = list(verts)
+    cells = {k: list(v) for k, v in cells.items()}
+    base = len(verts)
+    nx, ny, nz = n
+
+    def vid(i, j, k):
+        return base + (k * (ny + 1) + j) * (nx + 1) + i
+    for k in range(nz + 1):
+        for j in range(ny + 1):
+            for i in range(nx + 1):
+                verts.append((origin[0] + size * i, origin[1] + size * j, origin[2] + size * k))
+    hexes = []
+    for k in range(nz):
+        for j in range(ny):
+            for i in range(nx):
+                c = [vid(i, j, k), vid(i + 1, j, k), vid(i + 1, j + 1, k), vid(i, j + 1, k),
+                     vid(i, j, k + 1), vid(i + 1, j, k + 1), vid(i + 1, j + 1, k + 1), vid(i, j + 1, k + 1)]
+                if hex_volume(verts, c) < 0:
+                    c = c[4:] + c[:4]
+                hexes.append(tuple(c) + (0,))
+    qcount = {}
+    for h in hexes:
+        for f in HEX_QUA:
+            q = tuple(h[i] for i in f)
+            qcount.setdefault(tuple(sorted(q)), []).append(q)
+    quas = [lst[0] + (first_id,) for key, lst in sorted(qcount.items()) if len(lst) == 1]
+    cells['hex'] = cells.get('hex', []) + hexes
+    cells['qua'] = cells.get('qua', []) + quas
+    return verts, cells
+
+
 def side_id(verts, nodes, lengths):
     eps = 1e-12
     for ax in range(3):
